@@ -1272,3 +1272,89 @@ pub fn replay_stream(ctx: &mut Ctx, item: &[u8], suffix: &[u8]) {
         }
     }
 }
+
+
+pub fn replay_key_import(ctx: &mut Ctx, which: &str, bytes: &[u8]) {
+    let replay = || json!({"kind": "key-import", "which": which, "hex": hex(bytes)});
+    let mut buf = bytes.to_vec();
+    if which == "secp" {
+        let res = guard(|| enr::CombinedKey::secp256k1_from_bytes(&mut buf));
+        let want = bytes.len() == 32 && sig::secp_secret_valid(&u256::from_slice(bytes));
+        match res {
+            Err(p) => ctx.violate("C03", "panic", "secp256k1_from_bytes", || p.clone(), replay),
+            Ok(Err(_)) => {
+                if want {
+                    ctx.violate("C17", "valid-secret-rejected", "secp256k1", || hex(bytes), replay);
+                }
+            }
+            Ok(Ok(k)) => {
+                if bytes.len() == 32 && !want {
+                    ctx.violate("C17", "invalid-secret-accepted", "secp256k1", || hex(bytes), replay);
+                } else if bytes.len() == 32 {
+                    let s32 = u256::from_slice(bytes);
+                    if Some(k.public().encode()) != sig::secp_pub(&s32).map(|p| p.to_vec()) {
+                        ctx.violate("C17", "public-key-differs-from-independent-derivation", "secp256k1", || hex(bytes), replay);
+                    }
+                    if k.encode() != bytes {
+                        ctx.violate("C17", "export-differs-from-import", "secp256k1", || hex(&k.encode()), replay);
+                    }
+                    if buf.iter().any(|&b| b != 0) {
+                        ctx.violate("C17", "caller-buffer-not-wiped", "secp256k1", || hex(&buf), replay);
+                    }
+                }
+            }
+        }
+    } else {
+        let res = guard(|| enr::CombinedKey::ed25519_from_bytes(&mut buf));
+        match res {
+            Err(p) => ctx.violate("C03", "panic", "ed25519_from_bytes", || p.clone(), replay),
+            Ok(Err(_)) => {
+                if bytes.len() == 32 {
+                    ctx.violate("C17", "valid-secret-rejected", "ed25519", || hex(bytes), replay);
+                }
+            }
+            Ok(Ok(k)) => {
+                if bytes.len() != 32 {
+                    ctx.violate("C17", "wrong-length-secret-accepted", "ed25519", || format!("{} bytes", bytes.len()), replay);
+                } else {
+                    let s32 = u256::from_slice(bytes);
+                    if k.public().encode() != sig::ed_pub(&s32).to_vec() {
+                        ctx.violate("C17", "public-key-differs-from-independent-derivation", "ed25519", || hex(bytes), replay);
+                    }
+                    if k.encode() != bytes {
+                        ctx.violate("C17", "export-differs-from-import", "ed25519", || hex(&k.encode()), replay);
+                    }
+                    if buf.iter().any(|&b| b != 0) {
+                        ctx.violate("C17", "caller-buffer-not-wiped", "ed25519", || hex(&buf), replay);
+                    }
+                }
+            }
+        }
+    }
+}
+
+pub fn replay_stream_seq(ctx: &mut Ctx, recs: &[Vec<u8>]) {
+    let concat: Vec<u8> = recs.concat();
+    let listed = crate::props::rlp_wrap_list(recs);
+    for kt in dec::kts() {
+        // only key types that accept every record alone are judged
+        if !recs.iter().all(|r| dec::decode_kt(kt, r).res.is_ok()) {
+            continue;
+        }
+        let replay = || json!({"kind": "stream-seq", "kt": kt.name(), "records": recs.iter().map(|x| hex(x)).collect::<Vec<_>>()});
+        match decode_seq_kt(kt, &concat, recs.len()) {
+            Ok(v) => {
+                if v.iter().zip(recs).any(|((enc, _), r)| enc != r) {
+                    ctx.violate("C13", "sequence-yields-other-records", kt.name(), || "".into(), replay);
+                }
+            }
+            Err(e) => ctx.violate("C13", "sequence-of-valid-records-rejected", kt.name(), || e.clone(), replay),
+        }
+        let (res, left, _p) = dec::list_kt(kt, &listed);
+        match res {
+            Ok(v) if v.len() == recs.len() && left == 0 && v.iter().zip(recs).all(|(o, r)| &o.enc == r) => {}
+            Ok(_) => ctx.violate("C13", "list-yields-other-records", kt.name(), || "".into(), replay),
+            Err(e) => ctx.violate("C13", "list-of-valid-records-rejected", kt.name(), || e.clone(), replay),
+        }
+    }
+}
